@@ -59,14 +59,20 @@ class Check(PropertyCheck):
             data = [[frac(rng.choice(WEIGHTS)) for _ in range(w)] for _ in range(h)]
             dt = rng.choice(['int', 'float', 'float', 'quantity'])
             ny, nx = shape
+            idt = None
             if dt == 'int':
-                img = [[str(rng.randint(-9, 9)) for _ in range(nx)] for _ in range(ny)]
+                # the integer-like image dtypes numpy has: signed, unsigned, bool
+                idt = rng.choice(['int64', 'int64', 'int64', 'int16', 'int32', 'uint8', 'uint16', 'bool'])
+                lo, hi = (0, 1) if idt == 'bool' else ((0, 9) if idt.startswith('u') else (-9, 9))
+                img = [[str(rng.randint(lo, hi)) for _ in range(nx)] for _ in range(ny)]
             else:
                 img = [[rng.choice([str(rng.randint(-9, 9)), frac(Fraction(rng.randint(-40, 40), 8)), 'nan', 'inf'])
                         if rng.random() < 0.1 else frac(Fraction(rng.randint(-40, 40), 4))
                         for _ in range(nx)] for _ in range(ny)]
             c = {'kind': op, 'bbox': box, 'data': data, 'shape': [ny, nx], 'img': img, 'dtype': dt,
                  'fill': rng.choice(FILLS), 'copy': rng.random() < 0.5}
+            if idt is not None:
+                c['idt'] = idt
             if op == 'get_values' and rng.random() < 0.6:
                 c['mask'] = [[rng.random() < 0.3 for _ in range(nx)] for _ in range(ny)]
             if op == 'to_image':
@@ -102,7 +108,7 @@ class Check(PropertyCheck):
         import astropy.units as u
         ny, nx = case['shape']
         if case['dtype'] == 'int':
-            a = np.array([[int(v) for v in row] for row in case['img']], dtype=np.int64).reshape(ny, nx)
+            a = np.array([[int(v) for v in row] for row in case['img']], dtype=getattr(np, case.get('idt', 'int64') + ('_' if case.get('idt') == 'bool' else ''))).reshape(ny, nx)
         else:
             a = np.array([[val(v) for v in row] for row in case['img']], dtype=float).reshape(ny, nx)
         if case['dtype'] == 'quantity':
